@@ -533,6 +533,9 @@ class ConfigParser(object):
       self._advance()
       is_string = self._current_token.type == tokenize.STRING
       continue_parsing = was_string and is_string
+      if continue_parsing:
+        # Keep adjacent string tokens separate, as in the original source.
+        token_value += ' '
 
     return True, value
 
